@@ -25,39 +25,20 @@ import (
 
 // ---- reference base cost (the model's base_plasma, evaluated by the harness)
 
-var methodCost map[string]uint64
-
-func methodKey(addr types.Address, data []byte) string {
-	if len(data) < 4 {
-		return string(addr[:])
-	}
-	return string(addr[:]) + string(data[:4])
-}
-
-// refBase: the base cost of a user block by its type, data length or called method. found = did the method lookup of
-// the acknowledged spork regime find the method (observed, an input of the model as well). ok=false: no base cost
-// exists (unknown method, data too long): the block has to be refused.
-func refBase(b *nom.AccountBlock, found bool) (uint64, bool) {
-	if methodCost == nil {
-		methodCost = map[string]uint64{}
-		for _, e := range embedded.VerifMethodPlasma() {
-			methodCost[string(e.Contract[:])+string(e.Selector)] = e.Plasma
-		}
-	}
+// refBase: the base cost of a user block by its type, data length or called method, the method's price taken from the
+// harness's own list (pricelist.go) under the spork regime of the acknowledged momentum. ok=false: no base cost exists
+// (no such contract / method in that regime, data too long): the block has to be refused.
+func refBase(b *nom.AccountBlock, regime int) (uint64, bool) {
 	if b.IsReceiveBlock() {
-		return 21000, true
+		return priceBase, true
 	}
 	if types.IsEmbeddedAddress(b.ToAddress) {
-		if !found {
-			return 0, false
-		}
-		p, ok := methodCost[methodKey(b.ToAddress, b.Data)]
-		return p, ok
+		return listedPrice(regime, b.ToAddress, b.Data)
 	}
 	if len(b.Data) > 16384 {
 		return 0, false
 	}
-	return 21000 + 68*uint64(len(b.Data)), true
+	return priceBase + 68*uint64(len(b.Data)), true
 }
 
 // refFusedPlasma: plasma provided by an amount of fused QSR: 2100 per whole QSR, at most 5000 units
@@ -258,9 +239,9 @@ func proofOfWork(rng *rand.Rand, b *nom.AccountBlock, d uint64, doWork bool) boo
 
 // plasmaState: what the plasma check of the block reads (the stores the vm context is built from)
 type plasmaState struct {
-	ctx                            vm_context.AccountVmContext
+	ctx                           vm_context.AccountVmContext
 	committed, uncommitted, fused *big.Int
-	found                          bool
+	found                         bool
 }
 
 func readPlasmaState(nd *Node, b *nom.AccountBlock) *plasmaState {
